@@ -324,9 +324,11 @@ mod real {
         "name with trailing dots...", "= equals in name =", "- dash -", "semi;colon", "tab\tinside", ":colon start", "ends with colon:", "two\nlines",
         "three\nline\nname",
     ];
-    const STMT_INPUTS: [&str; 14] = [
+    const STMT_INPUTS: [&str; 18] = [
         "a = 1;", "foo(x, y);", "if a { b = 2; } else { c = 3; }", "while x < 3 { x = x + 1; }", "return;", "return 'a b';", "x1 = (a + b) - c;",
         "{ }", "// comment\na = b;", "a = 1;\nb = 2;\n\nc = 3;", "f();\n", "a == b;", "a = ;", "if { x",
+        // recovered by INSERTING a token: the tree has a MISSING node and no ERROR node
+        "a = 1", "return x", "f(1)", "while x { y = 2 }",
     ];
     const LST_INPUTS: [&str; 6] = ["ab cd", "(a b (c))", "é € 12", "a\nb\n\nc", "( a", "x ? y"];
     const SUFFIXES: [&str; 5] = ["|||", " tag", "é≠", "+x+", "#1"];
